@@ -77,6 +77,7 @@ func NewRegistry(o *Options) *minify.M {
 	m.AddCmd(MTCmdIn, helperCmdArgs(901, "-in", "$in.txt"))
 	m.AddCmd(MTCmdOut, helperCmdArgs(902, "-out", "$out.txt"))
 	m.AddCmd(MTCmdFile, helperCmdArgs(903, "-in", "$in.txt", "-out", "$out.txt"))
+	m.AddCmd(MTCmdStream, helperCmdArgs(904, "-stream"))
 	return m
 }
 
@@ -94,6 +95,10 @@ const (
 	MTCmdIn   = "text/x-cmd-in"
 	MTCmdOut  = "text/x-cmd-out"
 	MTCmdFile = "text/x-cmd-in-out"
+	// a well-behaved filter: copies while it reads, ignores SIGPIPE and exits with a status > 0
+	// when a write fails or when its input ends before the announced length (what tools
+	// written in Python, Node or Java, decompressors and parsers do)
+	MTCmdStream = "text/x-cmd-stream"
 )
 
 var ErrStubFailed = errors.New("stub minifier: failed after half of the output")
